@@ -414,6 +414,9 @@ func runJob(prog *sym.Program, job Job, spec *Spec, solver string, timeoutMs int
 		budget := evalBudget(job.H.Alloc, job.Params)
 		e.AllocMax = func(es int64) int64 { return budget / es }
 	}
+	for _, ns := range job.H.NoStubs {
+		e.Unregister(ns)
+	}
 	if spec.CrossCheck > 0 {
 		e.Solver().Record = true
 	}
